@@ -95,6 +95,11 @@ func Seal(base *Hello, echPos int, key *KeyMat, suite Suite, pt []byte, sender *
 // authentically sealed to key (its public key, its config in the info string, the AAD of this very
 // hello), but the extension names configID.
 func SealAs(base *Hello, echPos int, key *KeyMat, configID uint8, suite Suite, pt []byte, sender *hpke.Sender, recVer uint16) *Sealed {
+	return SealInfo(base, echPos, key, configID, nil, suite, pt, sender, recVer)
+}
+
+// SealInfo is SealAs with the HPKE info string chosen freely (nil = the standard "tls ech\0" || config).
+func SealInfo(base *Hello, echPos int, key *KeyMat, configID uint8, info []byte, suite Suite, pt []byte, sender *hpke.Sender, recVer uint16) *Sealed {
 	s := &Sealed{Key: key, Suite: suite, PT: pt}
 	kdf, err := hpke.NewKDF(suite.KDF)
 	if err != nil {
@@ -109,7 +114,9 @@ func SealAs(base *Hello, echPos int, key *KeyMat, configID uint8, suite Suite, p
 		if err != nil {
 			panic(err)
 		}
-		info := append([]byte("tls ech\x00"), key.Config...)
+		if info == nil {
+			info = append([]byte("tls ech\x00"), key.Config...)
+		}
 		enc, snd, err := hpke.NewSender(pk, kdf, aead, info)
 		if err != nil {
 			panic(err)
